@@ -184,6 +184,7 @@ struct Shared {
 /// Runs `prog` once under the schedule `prefix` (thread choices at decision points; after the
 /// prefix the first enabled thread is taken).
 pub fn run_schedule(prog: &Program, prefix: &[usize]) -> RunResult {
+    choose_drop_mode();
     heartbeat(|| {
         format!(
             "scheduled run, chunk size {}, gzip level {}, producer {:?}, consumer wakers {:?} with {} spurious polls, schedule choices {:?}: did not finish",
@@ -278,8 +279,7 @@ pub fn run_schedule(prog: &Program, prefix: &[usize]) -> RunResult {
         match r {
             Ok(true) => {
                 // the drop itself: block points inside
-                let r2 = std::panic::catch_unwind(std::panic::AssertUnwindSafe(|| drop(w)));
-                if r2.is_err() {
+                if drop_in_mode(w) {
                     *sh.panicked.lock().unwrap() = true;
                 } else {
                     sh.results.lock().unwrap().push("u".into());
@@ -313,7 +313,9 @@ pub fn run_schedule(prog: &Program, prefix: &[usize]) -> RunResult {
             let mut wakers: std::collections::HashMap<u64, std::task::Waker> = Default::default();
             loop {
                 if Some(n_polls) == drop_after {
-                    drop(body);
+                    if drop_in_mode(body) {
+                        panic!("dropping the body panicked");
+                    }
                     sh.polls.lock().unwrap().push((0, "X".into(), vec![]));
                     return;
                 }
@@ -349,7 +351,9 @@ pub fn run_schedule(prog: &Program, prefix: &[usize]) -> RunResult {
                 sh.polls.lock().unwrap().push((id, s, d));
             }
             // dropping the body takes the lock once more (Drop for Reader)
-            drop(body);
+            if drop_in_mode(body) {
+                panic!("dropping the body panicked");
+            }
             sh.polls.lock().unwrap().push((0, "X".into(), vec![]));
         }));
         if r.is_err() {
